@@ -19,6 +19,12 @@ INVARIANT AnchorsPartition
 INVARIANT ChainsApart
 INVARIANT OrderFree
 INVARIANT RotationFree
+INVARIANT RepairedCacheDesign
+"""
+NEG_CFG = """SPECIFICATION Spec
+CONSTANTS
+  Samples = 6
+INVARIANT StaleCacheDesign
 """
 GENE_HITS = [a + b + c for a in ([], [{"p": "a", "s": 40}], [{"p": "a", "s": 60}])
              for b in ([], [{"p": "b", "s": 30}]) for c in ([], [{"p": "c", "s": 70}])]
@@ -174,6 +180,8 @@ def run(ctx):
     mc = tlc.run("Detect_MC", MC_CFG % (3 if ctx.quick else 12), ctx.workdir, dump=True, coverage=True, timeout=3000)
     ctx.model(mc, "Detect_MC reference satisfies relation; anchors partition; order/rotation free",
               vacuity=["PickRule", "PickGene", "PickPair"])
+    neg = tlc.run("Detect_MC", NEG_CFG, ctx.workdir, tag="_neg", timeout=3000)
+    ctx.expect_violation(neg, "StaleCacheDesign", "stale / window-dependent circular_origin flag in apply_cluster_rules (P1, P17 on the model)")
     rules, genes = load_catalogues(mc)
     cases = build_cases(ctx, rng, rules, genes)
     for idx, case in enumerate(cases):
